@@ -81,3 +81,11 @@ Theorem c01_invalid_regex_matches_nothing : forall (regex : Type) compile is_mat
   Like.like_all regex compile is_match s p = repeat false 4.
 Proof. exact LikeP.like_invalid_pattern_matches_nothing. Qed.
 Print Assumptions c01_invalid_regex_matches_nothing.
+
+(* a wildcard struct's field assertions each read their field from the pattern's own value, whatever the other fields are *)
+Theorem c01_wildcard_struct_field_reads_its_own_value : forall j id rest fields e i ops fpat fname,
+  nth_error fields i = Some (ops, fpat) -> root_field_name ops = Some fname -> field_name_index_ok fname = true ->
+  exists body, expand j (PStruct id None rest fields) e = SSeq body /\
+               nth_error body i = Some (with_tail ops (VField e fname) (VRef (VField e fname)) (expand j fpat)).
+Proof. exact CorollariesP.wildcard_struct_field_reads_its_own_value. Qed.
+Print Assumptions c01_wildcard_struct_field_reads_its_own_value.
